@@ -8,7 +8,7 @@ MODULE = 'Props.C04'
 THEOREMS = ['C04_unregistered_reports_nothing', 'C04_no_crosstalk', 'C04_fresh_twins_distinct_partial',
             'C04_unregistered_twin_refuted', 'C04_padding_collision_refuted', 'C04_model_is_generated_core', 'C04_entry_points_register_exactly_what_they_are_handed', 'C04_registration_creates_entry_partial']
 LEVEL = 'proof'
-FEATURES = [{'delegators'}, {'delegators', 'twins'}, {'twins'}, {'twinfile'}, {'twins', 'twinfile', 'gen'}, {'twins', 'rec'}, {'twinfile', 'gen'}, {'twins', 'twinfile'}, {'twinfile', 'addmod'}, {'twinfile', 'addmod', 'gen'}]
+FEATURES = [{'twinfile', 'twindeco'}, {'delegators'}, {'delegators', 'twins'}, {'twins'}, {'twinfile'}, {'twins', 'twinfile', 'gen'}, {'twins', 'rec'}, {'twinfile', 'gen'}, {'twins', 'twinfile'}, {'twinfile', 'addmod'}, {'twinfile', 'addmod', 'gen'}]
 # every registration entry point (add_function, decorator, add_module with functions/classes/one module for several files,
 # the auto-profiling hook with functions/classes) over value-equal twins
 GLUE = [{'twinfile', 'regmodes'}, {'twinfile', 'regmodes', 'twins'}, {'twinfile', 'regmodes', 'gen'}]
